@@ -11,7 +11,7 @@
    EVERY schedule, the repaired code (v0 = false). *)
 From SC Require Import Base.Prelude Resource.Impl Resource.Spec Resource.Pull Resource.ImplProofs
   Resource.Flat Resource.FlatProofs Resource.Judge Conc.Lts Conc.LtsProofs Conc.DeleteProofs Conc.FlatInst Conc.Judge
-  Conc.GenLts Conc.GenProofs Conc.LinSound Conc.AtomicDefs Gen.C02Atomic Conc.AtomicTable Conc.CfgLts Conc.CfgProofs Conc.CreatedProofs Conc.AgreesOk.
+  Conc.GenLts Conc.GenProofs Conc.LinSound Conc.AtomicDefs Gen.C02Atomic Conc.AtomicTable Conc.CfgLts Conc.CfgProofs Conc.CreatedProofs Conc.AgreesOk Conc.CfgRun.
 From Coq Require Import Sorted.
 
 Section C02.
@@ -472,7 +472,22 @@ Section C02_configuration.
     - apply trans_rem_exact. exact H.
     - apply trans_rem_none.
   Qed.
+
+  (* ... and so does every RUN of it (Conc/CfgRun.v: run_rem executes a schedule with the remembering closure;
+     step_tr_trans: the parametrised step with the code's atomic step IS the step of Conc/Lts.v): for every
+     program and every schedule the state reached is the code's *)
+  Theorem C02_remembered_read_run_harmless_iff_exact :
+    forall (eqv : option (option M -> option M -> bool)) idfun v0 v1 (prog : list (call M writer rmask)) sched s,
+    match eqv with Some cmp => forall a b, cmp a b = true -> a = b | None => True end ->
+    run_rem m_eqb m_empty w_validate w_merge clock_at str_ltb idfun v0 v1 prog eqv sched s =
+    run m_eqb m_empty w_validate w_merge clock_at str_ltb idfun v0 v1 prog sched s.
+  Proof.
+    intros [cmp|] idfun v0 v1 prog sched s H.
+    - apply run_rem_exact. exact H.
+    - apply run_rem_none.
+  Qed.
 End C02_configuration.
+Print Assumptions C02_remembered_read_run_harmless_iff_exact.
 Print Assumptions C02_equivalence_plays_no_role.
 Print Assumptions C02_linearizable_configured.
 Print Assumptions C02_remembered_read_harmless_iff_exact.
@@ -493,6 +508,21 @@ Theorem C02_remembered_read_tolerance_refuted :
    end) = true.
 Proof. exact trans_rem_tolerance_refuted. Qed.
 Print Assumptions C02_remembered_read_tolerance_refuted.
+
+(* the same as a RUN: stored 5, tolerance 3; T0 = Set 6 expecting 5, T1 = Set 7; schedule T0.read T1.read T1.save
+   T1.publish T0.save T0.publish.  The variant: both succeed and 6 is stored -- a history the checker rejects; the
+   code on the same schedule: T0 is Aborted, 7 stays *)
+Theorem C02_remembered_read_run_tolerance_refuted :
+  let s := f_run_rem (Some (CqTol Fa 3)) rem_prog rem_sched (Some (mkF 5 0 0)) in
+  let s' := f_run false None rem_prog rem_sched (Some (mkF 5 0 0)) [] in
+  map (@result_of fmsg) (st_pcs s) = [Some (OVal (inl (mkF 6 0 0))); Some (OVal (inl (mkF 7 0 0)))] /\
+  v_val (w_v (st_w s)) = Some (mkF 6 0 0) /\ st_stutter s = O /\
+  C02_ok (CaseSched None (Some (mkF 5 0 0)) [] rem_prog rem_sched
+                    [mkFO (Some (mkF 6 0 0)) 0; mkFO (Some (mkF 7 0 0)) 0] (Some (mkF 6 0 0)) [] [] [] []) = false /\
+  map (@result_of fmsg) (st_pcs s') = [Some (OLost 10); Some (OVal (inl (mkF 7 0 0)))] /\
+  v_val (w_v (st_w s')) = Some (mkF 7 0 0).
+Proof. exact run_rem_tolerance_refuted. Qed.
+Print Assumptions C02_remembered_read_run_tolerance_refuted.
 
 (* non-vacuity: the equivalence IS a parameter of the model.  A subscriber of a Value constructed with the
    tolerance 3 is not sent the write 5 -> 6, one of a Value without equivalence is; the write happened in both *)
